@@ -108,3 +108,16 @@ Proof.
          g_two_nodes, supply, (fst w_facility_late), EValue.
   split; [exact g_two_nodes_wf|]. split; [vm_compute; reflexivity|differs].
 Qed.
+
+(* add_switch: the same three-step structure; a port's labels rejected after node and service exist *)
+Definition w_switch_late : st * res N :=
+  op_add_switch Experiment (S "sw1") None 0 [] tVLAN None 2 (Some EAssert) (mkSt g_two_nodes supply).
+
+Lemma add_switch_atomic_refuted :
+  exists fl name nid dns dk ty pns np pp g fresh s' e,
+    wf_graph g = true /\ op_add_switch fl name nid dns dk ty pns np pp (mkSt g fresh) = (s', Err e) /\ sg s' <> g.
+Proof.
+  exists Experiment, (S "sw1"), None, 0, [], tVLAN, None, 2%nat, (Some EAssert),
+         g_two_nodes, supply, (fst w_switch_late), EAssert.
+  split; [exact g_two_nodes_wf|]. split; [vm_compute; reflexivity|differs].
+Qed.
